@@ -329,11 +329,56 @@ func init() {
 			}
 			fns := p.ProdFuncs()
 			r.Analysed = len(fns)
+			// helpers that save the commit object and hand its sum on: result index of the sum
+			sumOf := map[*ssa.Function]int{}
+			scSum := newSuccSummary(p, sc)
+			for round := 0; round < 2; round++ {
+				for _, h := range fns {
+					if _, done := sumOf[h]; done || h.Parent() != nil {
+						continue
+					}
+					var hs []ssa.Value
+					eachCall(h, func(c ssa.CallInstruction) {
+						call, ok := c.(*ssa.Call)
+						if !ok {
+							return
+						}
+						idx := -1
+						if f := calleeFunc(c); f != nil && sc[f] {
+							idx = 0
+						} else if g := call.Call.StaticCallee(); g != nil {
+							if k, ok := sumOf[g]; ok {
+								idx = k
+							}
+						}
+						if idx < 0 {
+							return
+						}
+						for _, ref := range *call.Referrers() {
+							if ex, ok := ref.(*ssa.Extract); ok && ex.Index == idx {
+								hs = append(hs, ex)
+							}
+						}
+					})
+					if len(hs) == 0 || !scSum.wrapper(h, wrapperDepth) {
+						continue
+					}
+					fwh := forward(hs, fwdOpts{noBinOp: true})
+					ei := errorResultIndex(h.Signature)
+					for _, ret := range returnsOf(h) {
+						if v := retVal(ret, ei); v != nil && (definitelyNonNilError(v) || nonNilByGuard(h, ret, v)) {
+							continue
+						}
+						for i := range ret.Results {
+							if fwh[retVal(ret, i)] {
+								sumOf[h] = i
+							}
+						}
+					}
+				}
+			}
 			for _, fn := range fns {
 				saves := callsTo(fn, sc)
-				if len(saves) == 0 {
-					continue
-				}
 				var seeds []ssa.Value
 				for _, s := range saves {
 					call, ok := s.(*ssa.Call)
@@ -345,6 +390,36 @@ func init() {
 							seeds = append(seeds, ex)
 						}
 					}
+				}
+				// calls of sum-returning helpers count as the save
+				eachCall(fn, func(c ssa.CallInstruction) {
+					call, ok := c.(*ssa.Call)
+					if !ok {
+						return
+					}
+					g := call.Call.StaticCallee()
+					if g == nil {
+						return
+					}
+					k, ok := sumOf[g]
+					if !ok {
+						return
+					}
+					saves = append(saves, c)
+					if g.Signature.Results().Len() == 1 {
+						seeds = append(seeds, call)
+					}
+					for _, ref := range *call.Referrers() {
+						if ex, ok := ref.(*ssa.Extract); ok && ex.Index == k {
+							seeds = append(seeds, ex)
+						}
+					}
+				})
+				if len(saves) == 0 {
+					continue
+				}
+				if _, isHelper := sumOf[fn]; isHelper && len(callsTo(fn, sc)) == 0 {
+					// a pure pass-through of another helper: its callers carry the obligation
 				}
 				fw := forward(seeds, fwdOpts{noBinOp: true})
 				eachCall(fn, func(c ssa.CallInstruction) {
